@@ -238,3 +238,43 @@ def _random_replay(ob, repo):
 for _c in __import__('pyvc.spec', fromlist=['REGISTRY']).REGISTRY:
     if _c.path == BM and _c.qualname == 'random':
         _c.replay_hook = _random_replay
+
+
+# ---- the operand stack itself: a LIFO of ANY depth (deeply nested or recursive expressions keep all their pending
+#      operands); the stack is the real EvalStack built by its real constructor, then filled with an abstract run of
+#      `depth` operands (depth symbolic, unbounded)
+ES = 'bardolph/vm/eval_stack.py'
+def _eval_stack(b):
+    from pyvc.values import Segment
+    import z3 as _z3
+    es = b.new(('bardolph.vm.eval_stack', 'EvalStack'))
+    depth = b.sym('int', 'depth')
+    b.between(depth, 0, 10 ** 9)
+    st = es.attrs['_stack']
+    if isinstance(depth, int):
+        st.items.extend([0] * min(depth, 200))
+    else:
+        st.items.append(Segment('pending', _z3.IntVal(0), depth.t, elem=lambda I_, base, ix: I_.fresh('int', 'operand'), tag='pending operands'))
+    return es, depth
+
+
+c = contract(ES, 'EvalStack.push', serves=['C02', 'C01'])
+def _setup(b, case):
+    es, depth = _eval_stack(b)
+    return {'self': es, 'value': b.sym('int', 'value'), '_depth': depth}
+c.setup(_setup)
+c.ensures('one-more-operand-on-top-nothing-lost', 'len(self._stack) == _depth + 1 and self._stack[-1] is value')
+
+c = contract(ES, 'push_pop', serves=['C02', 'C01'], name='lemma:push a; push b; pop; pop at any depth', src='''
+def push_pop(es, a, b):
+    es.push(a)
+    es.push(b)
+    x = es.pop()
+    y = es.pop()
+    return (x, y)
+''')
+def _setup(b, case):
+    es, depth = _eval_stack(b)
+    return {'es': es, 'a': b.sym('int', 'a'), 'b': b.sym('int', 'b'), '_depth': depth}
+c.setup(_setup)
+c.ensures('last-in-first-out', 'result[0] is b and result[1] is a and len(es._stack) == _depth')
